@@ -274,7 +274,12 @@ class Driver:
         await self.settle()
 
     async def settle(self):
-        for _ in range(200):
+        # bounded by real time, not by a number of loop turns: a step of a gated SQL query waits for the aiosqlite
+        # thread, and on a loaded machine 200 turns of the event loop can pass before that thread is scheduled
+        loop = asyncio.get_running_loop()
+        deadline = loop.time() + (8.0 if not getattr(self, "_slow", False) else 0.3)
+        spins = 0
+        while True:
             await asyncio.sleep(0)
             busy = False
             for c in self.conns.values():
@@ -285,6 +290,12 @@ class Driver:
                     busy = True
             if not busy:
                 break
+            spins += 1
+            if spins >= 200:
+                await asyncio.sleep(0.001)
+                if loop.time() > deadline:
+                    self._slow = True
+                    break
         for _ in range(3):
             await asyncio.sleep(0)
 
@@ -332,7 +343,7 @@ class Driver:
         for gid in set(self.gates) - before:
             g = self.gates[gid]
             try:
-                await asyncio.wait_for(g.ready.wait(), 8 if not self.wedged else 0.3)
+                await asyncio.wait_for(g.ready.wait(), 20 if not self.wedged else 0.3)
             except asyncio.TimeoutError:
                 self.wedged.append({"c": cid, "m": message})
                 g.batches = g.batches or []
@@ -377,10 +388,16 @@ class Driver:
         n = g.steps_done
         g.waiting.clear()
         g.release()
-        for _ in range(2000):
+        loop = asyncio.get_running_loop()
+        deadline = loop.time() + 20.0
+        spins = 0
+        while not (g.finished or (g.steps_done > n and g.waiting.is_set())):
             await asyncio.sleep(0)
-            if g.finished or (g.steps_done > n and g.waiting.is_set()):
-                break
+            spins += 1
+            if spins >= 2000:
+                await asyncio.sleep(0.001)
+                if loop.time() > deadline:
+                    break
         await self.settle()
         self.ops.append({"op": "row", "c": cid, "sid": sid})
         self.registries.append(self._registry())
@@ -417,7 +434,7 @@ class Driver:
         for gid in set(self.gates) - before:
             g = self.gates[gid]
             try:
-                await asyncio.wait_for(g.ready.wait(), 8)
+                await asyncio.wait_for(g.ready.wait(), 20)
             except asyncio.TimeoutError:
                 pass
             rows = g.batches or []
@@ -780,7 +797,7 @@ def suite_live(tier, seed, pid="RELAY"):
 RAW_POOL = [None, True, False, 0, 1, -1, 5, 2145934799, 2145934800, 2 ** 64, "5", "-3", "", "x", [], [1], ["a"], {}, {"a": 1}]
 
 
-def suite_validate(tier, seed, pid="RELAY"):
+def suite_validate(tier, seed, pid="RELAY", entry="relay.validate"):
     from nostr_relay.storage.base import NostrQuery
     from nostr_relay.errors import StorageError
     from pydantic import ValidationError
@@ -827,7 +844,7 @@ def suite_validate(tier, seed, pid="RELAY"):
         except Exception:
             impls.append({"k": "crash"})
     default_limit = NostrQuery.model_fields["limit"].default     # Config.max_limit at the time base.py was imported
-    outs = model_batch("relay.validate", [{"max_limit": default_limit, "raw": c} for c in cases], pid=pid)
+    outs = model_batch(entry, [{"max_limit": default_limit, "raw": c} for c in cases], pid=pid)
     for c, mo, io in zip(cases, outs, impls):
         s.case(c, nontrivial=io["k"] == "ok")
         s.count("impl_" + io["k"])
@@ -1056,6 +1073,8 @@ def suite_concurrent_dup(tier, seed, backends=("sql",)):
         q1, q2 = asyncio.Queue(), asyncio.Queue()
         await st.subscribe(env.FakeClient("a"), "s", [{"kinds": [kind]}], q1)
         await st.subscribe(env.FakeClient("b"), "t", [{"kinds": [kind + 1]}], q2)
+        await env.drain_to_eose(q1)
+        await env.drain_to_eose(q2)
         e = env.mk_event(rng.randrange(3), kind, env.NOW - 5, [["t", "x"]], "dup%d" % rng.randrange(10 ** 6))
 
         async def sub():
